@@ -115,6 +115,22 @@ def run_controls():
     if any(x.verdict == VIOLATED and x.func == 'ctl2.condensed_ordered' for x in o.items):
         bad.append('CONDENSED fired on pairs taken straight from triu_indices')
     n += 1
+    from .rules.condensed import half_filled_lookup
+    for name, fn, rule, part, bad_fn, ok_fn in (
+            ('loop-carry', sweeps.loop_carry, 'LOOP-CARRY', 'computes each item from that item alone', 'ctl2.carried_selection', 'ctl2.carried_counter_only'),
+            ('loop-shadow', sweeps.loop_shadow, 'LOOP-SHADOW', 'is not replaced by one of its elements', 'ctl2.shadowed_collection', 'ctl2.fresh_names'),
+            ('runlen', sweeps.run_lengths, 'RUNLEN', 'sentinel at both ends', 'ctl2.runs_without_closing_sentinel', 'ctl2.runs_with_both_sentinels'),
+            ('mask-weight', sweeps.mask_as_weight, 'MASK-WEIGHT', 'rows selected for the group', 'ctl2.group_means_by_weights', 'ctl2.group_means_by_selection'),
+            ('tri', sweeps.triangular_solve, 'TRI', 'triangular by construction', 'ctl2.ldl_factor_as_triangular', 'ctl2.cholesky_factor_as_triangular'),
+            ('half-filled', lambda c, o_, p: half_filled_lookup(c, o_, p, sweeps._in_scope), 'HALF-FILLED', 'uses ascending indices only',
+             'ctl2.half_filled_unordered', 'ctl2.half_filled_sorted')):
+        o = Obligations('CTL')
+        fn(ctx, o, ['ctl2.'])
+        n += 2
+        if not any(x.verdict == VIOLATED and x.rule == rule and x.func == bad_fn and part in x.construct for x in o.items):
+            bad.append(f'{name}: rule {rule} did not fire on {bad_fn}')
+        if any(x.verdict == VIOLATED and x.rule == rule and x.func == ok_fn for x in o.items):
+            bad.append(f'{name}: rule {rule} fired on the correct twin {ok_fn}')
     for extra in _extra_controls:
         extra(ctx, expect)
     return n, bad
